@@ -1482,6 +1482,15 @@ class BootstrapElectionModel(BaseElectionModel):
         )
         return to_call_mod
 
+    def _get_sorted_groups(self, all_units: pd.DataFrame, aggregate: list, group_name_column: str) -> list:
+        """
+        Returns the joined group names in the order in which BaseElectionModel sorts the aggregate frames
+        (ie. sorted by the aggregate columns). The joined names themselves sort differently as soon as
+        the values of one level are of different length (e.g. districts 1 and 10 followed by a county).
+        """
+        groups = all_units[aggregate + [group_name_column]].drop_duplicates().sort_values(aggregate)
+        return groups[group_name_column].tolist()
+
     def get_aggregate_predictions(
         self,
         reporting_units: pd.DataFrame,
@@ -1512,6 +1521,8 @@ class BootstrapElectionModel(BaseElectionModel):
             aggregate_temp_column_name = "-".join(aggregate)
             all_units[aggregate_temp_column_name] = all_units[aggregate].agg("_".join, axis=1)
             dummies = pd.get_dummies(all_units[aggregate_temp_column_name])
+            # order the groups like the aggregate frames are (by the key columns, not by the joined string)
+            dummies = dummies[self._get_sorted_groups(all_units, aggregate, aggregate_temp_column_name)]
         else:
             # since aggregate is of length zero we can grab the first element
             dummies = pd.get_dummies(all_units[aggregate[0]])
@@ -1661,6 +1672,8 @@ class BootstrapElectionModel(BaseElectionModel):
             aggregate_temp_column_name = "-".join(aggregate)
             all_units[aggregate_temp_column_name] = all_units[aggregate].agg("_".join, axis=1)
             dummies = pd.get_dummies(all_units[aggregate_temp_column_name])
+            # order the groups like the aggregate frames are (by the key columns, not by the joined string)
+            dummies = dummies[self._get_sorted_groups(all_units, aggregate, aggregate_temp_column_name)]
         else:
             # since aggregate is of length one, we can grab the first element
             dummies = pd.get_dummies(all_units[aggregate[0]])
